@@ -1,4 +1,5 @@
 import SemverProofs.Lemmas.NpmTables
+import SemverProofs.Lemmas.NpmParse
 /-!
 # C01 — range satisfaction follows npm range semantics
 
@@ -13,28 +14,18 @@ The statement excludes the table entries on which the crate *knowingly* differs 
 MAX_SAFE_INTEGER); for those the full statement is refuted below by kernel-checked witnesses
 (known findings K2, K3).
 
-**Part T2 (text ↔ tree)** — that `Range::parse` on every rendering of a tree (all loose spellings)
-evaluates the tables on that tree — is established per run by the correspondence check on texts
-rendered from trees by `Spec.Npm.genAst` (stream `npm`), not by a theorem; see DESIGN.md.
+**Part T2 (text ↔ tree, `Lemmas/NpmParse.lean`)**: on every text of the npm range grammar with the
+loose spellings (`Spec.Npm.AstText`, in `SemverSpec/NpmText.lean`) the parser yields exactly the
+tables applied to the tree the text denotes (`parse_text`).  T1 and T2 together give the property at
+the level of texts: `C01_text`, `C01_text_fails_only_if_unsatisfiable`, `C01_text_parses_if_satisfiable`.
+The grammar's garbage tokens are those whose first character can start no comparator; tokens that
+start like a comparator and then go wrong (`1.2.3.4`, `>=1.y`) are covered by the correspondence
+check on texts rendered by `Spec.Npm.genAst` (stream `npm`), not by the theorem.
 -/
 namespace Semver.C01
 open Semver Pred Bound Spec Spec.Npm
 
-/-- the crate's tables applied to a syntax tree node -/
-def evalSimple : Simple → Option BoundSet
-  | .prim op p => primitiveSet (toOperation op) (fromNP p)
-  | .bare p => partialSet (fromNP p)
-  | .tilde p => tildeSet false (fromNP p)
-  | .caret p => caretSet (fromNP p)
-  | .garbage _ => none
-
 def specSimple (s : Simple) : Option (List Comp) := s.comps.bind id
-
-def evalAlt : Alt → List BoundSet
-  | .hyphen l h => (hyphenSet ((some (fromNP l)).filter (·.major.isSome)) (hyphenUpper (fromNP h))).toList
-  | .simples l => foldSets (l.map evalSimple)
-
-def evalAst (r : Ast) : List BoundSet := r.flatMap evalAlt
 
 def Alt.noException : Alt → Prop
   | .hyphen _ _ => True
@@ -216,6 +207,49 @@ theorem C01_eval_wf (r : Ast) : ∀ s ∈ evalAst r, s.WF := by
     | caret p => exact caretSet_wf hx
     | garbage t => cases hx
 
+/-! ### the property at the level of texts (T1 + T2) -/
+
+/-- **C01_text**: for every text `s` of the npm range grammar (loose spellings included) denoting the
+tree `r`, if `Range::parse s` succeeds the parsed range is satisfied by a version exactly when npm's
+desugaring of `r` admits it -/
+theorem C01_text (r : Ast) (s : List Char) (hs : AstText r s) (hr : ∀ a ∈ r, Alt.noException a)
+    (R : Range) (hp : Range.parse s = .ok R) (v : Version) (hd : inDomain v) :
+    Range.satisfies R v = Ast.sat r v := by
+  rw [parse_text hs] at hp
+  split at hp
+  · cases hp
+  · cases hp
+    exact C01_desugar r hr v hd
+
+/-- parsing a text of the grammar fails only if npm's desugaring admits no version at all -/
+theorem C01_text_fails_only_if_unsatisfiable (r : Ast) (s : List Char) (hs : AstText r s)
+    (hr : ∀ a ∈ r, Alt.noException a) (hp : ∀ R, Range.parse s ≠ .ok R) (v : Version) (hd : inDomain v) :
+    Ast.sat r v = false := by
+  rw [parse_text hs] at hp
+  by_cases he : (evalAst r).isEmpty
+  · exact C01_failure_only_if_unsatisfiable r hr (by simpa using he) v hd
+  · rw [if_neg he] at hp
+    exact absurd rfl (hp _)
+
+/-- conversely: if npm admits some version, the text parses -/
+theorem C01_text_parses_if_satisfiable (r : Ast) (s : List Char) (hs : AstText r s)
+    (hr : ∀ a ∈ r, Alt.noException a) (v : Version) (hd : inDomain v) (hv : Ast.sat r v = true) :
+    ∃ R, Range.parse s = .ok R := by
+  rw [parse_text hs]
+  by_cases he : (evalAst r).isEmpty
+  · have := C01_failure_only_if_unsatisfiable r hr (by simpa using he) v hd
+    rw [hv] at this; cases this
+  · rw [if_neg he]; exact ⟨_, rfl⟩
+
+/-- every parsed text of the grammar parses to well-formed intervals, at most one per alternative -/
+theorem C01_text_wf (r : Ast) (s : List Char) (hs : AstText r s) (R : Range) (hp : Range.parse s = .ok R) :
+    ∀ x ∈ R, x.WF := by
+  rw [parse_text hs] at hp
+  split at hp
+  · cases hp
+  · cases hp
+    exact C01_eval_wf r
+
 /-! ### the full statement (without the exclusions) is false: kernel-checked witnesses -/
 
 /-- K2: `<1 >=1.0.0-0` admits `1.0.0-alpha` in the crate, npm (`<1.0.0-0 >=1.0.0-0`) admits nothing -/
@@ -238,6 +272,24 @@ theorem C01_full_statement_fails_K3 :
     ⟨1, 0, 0, [], []⟩, by unfold inDomain MAX_SAFE_INTEGER; decide, by decide, by decide⟩
 
 /-! ### non-vacuity -/
+
+/-- the hypotheses of `C01_text` are met by `^1.x || >= v02`, which parses, and `2.5.0` satisfies it -/
+example : ∃ R, Range.parse "^1.x || >= v02".toList = .ok R ∧
+    (∀ v, inDomain v → Range.satisfies R v =
+      Ast.sat [.simples [.caret (.maj 1)], .simples [.prim .ge (.maj 2)]] v) ∧
+    Range.satisfies R ⟨2, 5, 0, [], []⟩ = true := by
+  have hs := astText_example
+  have hr : ∀ a ∈ ([.simples [.caret (.maj 1)], .simples [.prim .ge (.maj 2)]] : Ast), Alt.noException a := by
+    intro a ha
+    simp only [List.mem_cons, List.not_mem_nil, or_false] at ha
+    rcases ha with rfl | rfl <;> (intro s hs; simp only [List.mem_cons, List.not_mem_nil, or_false] at hs; subst hs)
+    · simp [knownException]
+    · simp [knownException]
+  have hd : inDomain ⟨2, 5, 0, [], []⟩ := by unfold inDomain MAX_SAFE_INTEGER; decide
+  obtain ⟨R, hR⟩ := C01_text_parses_if_satisfiable _ _ hs hr ⟨2, 5, 0, [], []⟩ hd (by decide)
+  refine ⟨R, hR, fun v hv => C01_text _ _ hs hr R hR v hv, ?_⟩
+  rw [C01_text _ _ hs hr R hR _ hd]
+  decide
 
 example : Ast.sat [.simples [.caret (.full 1 2 3 [] [])]] ⟨1, 9, 0, [], []⟩ = true := by decide
 example : Ast.sat [.simples [.caret (.full 1 2 3 [] [])]] ⟨2, 0, 0, [.num 0], []⟩ = false := by decide
